@@ -18,6 +18,12 @@
        the first three are exact) and NumVal (identity of the numeric value inside its class:
        f:+0.0 and f:-0.0 are the same value for `eq`, NaN is a value that is not eq to itself).
        The numeric text of an atom is not derived here (that is C05's subject).
+     - kind "dnum": a number drawn at random by the executor for one case (never zero, NaN or an
+       infinity, pairwise different numeric values within the case), identified by its name; the
+       executor's projection gives the name back only for a value of identical representation
+       class and identical value, so name equality is "same type and same value" (eq and RT
+       coincide on it).  String atoms outside StrAtoms ("d:<n>") are random byte strings,
+       likewise identified by name.
 
    There are no actions: the rule is one step (value -> text -> value).  The properties are
      RTOK(v, back)          back is what evaluating the text gave; must be RT-related to v
@@ -35,7 +41,8 @@ IntAtoms   == {"i:0", "i:1", "i:-1", "i:42", "i:maxint", "i:minint"}
 BigAtoms   == {"i:2^63", "i:-2^63-1", "i:10^30", "i:-10^30"}
 RatAtoms   == {"r:1/3", "r:-1/3", "r:3/2", "r:big"}
 FloatAtoms == {"f:+0.0", "f:-0.0", "f:1.0", "f:-1.5", "f:0.1", "f:+Inf", "f:-Inf", "f:NaN",
-               "f:1e21", "f:1e-7", "f:max", "f:denorm", "f:2^63", "f:1e15", "f:123456.789"}
+               "f:1e21", "f:1e-7", "f:max", "f:denorm", "f:2^63", "f:1e15", "f:123456.789",
+               "f:2^53", "f:12345678901"}
 NumAtoms   == IntAtoms \cup BigAtoms \cup RatAtoms \cup FloatAtoms
 
 StrAtoms   == {"s:empty", "s:bare", "s:bare2", "s:space", "s:squote", "s:dquote", "s:tab", "s:nl",
@@ -81,7 +88,7 @@ Rel(x, y, nan) ==
                             /\ \A i \in 1..Len(x.es) : Rel(x.es[i], y.es[i], nan)
   ELSE IF x.k = "map"  THEN /\ Cardinality(x.ps) = Cardinality(y.ps)
                             /\ \A p \in x.ps : \E q \in y.ps : Rel(p[1], q[1], nan) /\ Rel(p[2], q[2], nan)
-  ELSE IF x.k \in {"nil", "bool", "str"} THEN x.a = y.a /\ x.a # "?"
+  ELSE IF x.k \in {"nil", "bool", "str", "dnum"} THEN x.a = y.a /\ x.a # "?"
   ELSE FALSE                                   \* "error" and anything else is related to nothing
 
 EqDoc(x, y) == Rel(x, y, FALSE)
